@@ -206,11 +206,11 @@ func TestVerifC16Text(t *testing.T) {
 }
 
 type textStats struct {
-	funcs, instrs, agree, differ, oracleFail, distinct     int
+	funcs, instrs, agree, differ, oracleFail, distinct                          int
 	refBlind, refWrong, ruleDiff, boundaryOnly, misframed, unknown, ruleChecked int
-	strDiffer, strPanic                                    int
-	ops                                                    map[string]int
-	fams                                                   map[string]int
+	strDiffer, strPanic                                                         int
+	ops                                                                         map[string]int
+	fams                                                                        map[string]int
 }
 
 // ilen is a length rule for the instruction families where the reference decoder may be blind, written from the
